@@ -13,8 +13,9 @@ RULE = ("Validated operations (queries and mutations) over generated schemas x d
         "ResolverError; 0-2 injected unexpected exceptions `Boom` at resolved paths) x configurations {BlockingExecutor, "
         "Executor+blocking runtime, Executor+ThreadPoolRuntime with a harness-owned pool, Executor+AsyncIORuntime with "
         "gated coroutine resolvers and sync resolvers inline / through a harness-owned default executor} x completion "
-        "schedules (drawn index sequences; in thorough every schedule of operations with <= 6 deferred tasks is "
-        "enumerated). Oracle: data (ordered) and error multiset equal the reference executor's in every configuration "
+        "schedules (drawn index sequences deciding which in-flight task completes next, plus an `eager` stream deciding "
+        "at every pool submission whether a task completes before its submitter goes on; in thorough every completion "
+        "order of operations with <= 6 deferred tasks is enumerated under 5 fixed eager streams). Oracle: data (ordered) and error multiset equal the reference executor's in every configuration "
         "and schedule; once every task has been completed the overall result is done; with a Boom the overall result "
         "fails with one of the injected instances. Non-trivial: >= 2 tasks in flight at once and a non-identity order; "
         "distinct = (schema, text, world, configuration, schedule).")
@@ -54,7 +55,7 @@ def judge(config, o, ref, boom):
     """-> list of (sig, detail)"""
     vios = []
     if o.pending:
-        return [("C08/pending-after-all-tasks/%s" % config, "tasks=%d choices=%r" % (o.tasks, o.choices))]
+        return [("C08/pending-after-all-tasks/%s" % config, "tasks=%d choices=%r eager=%r" % (o.tasks, o.choices, o.eager))]
     if boom:
         if o.exc is None:
             return [("C08/unexpected-exception-lost/%s" % config, "result=%r errors=%r choices=%r" % (
@@ -105,14 +106,18 @@ def check_case(case, ctx=None, exhaustive=False):
         if exhaustive and config not in ("blocking-executor", "executor-blocking"):
             probe = run_config(config, schemas, req, eff, wj, boom, [])
             if probe.tasks <= 6:
-                outs, complete = SR.explore(lambda s: run_config(config, schemas, req, eff, wj, boom, s), 800)
-                if ctx is not None:
-                    ctx.event("exhaustive-operations:" + config if complete else "exhaustive-capped:" + config)
-                    ctx.event("exhaustive-schedules", len(outs))
-                for prefix, o in outs:
-                    for s, d in judge(config, o, ref, boom):
-                        vios.append((s, d))
-                    _count(ctx, case, config, o)
+                for ev in EAGER_VECTORS:
+                    outs, complete = SR.explore(
+                        lambda s: run_config(config, schemas, req, eff, wj, boom, {"order": s, "eager": ev}), 800)
+                    if ctx is not None:
+                        ctx.event("exhaustive-operations:" + config if complete else "exhaustive-capped:" + config)
+                        ctx.event("exhaustive-schedules", len(outs))
+                    for prefix, o in outs:
+                        for s, d in judge(config, o, ref, boom):
+                            vios.append((s, d))
+                        _count(ctx, case, config, o)
+                    if config == "asyncio-inline":
+                        break   # no pool submissions in this configuration
                 continue
         for sch in schedules:
             o = run_config(config, schemas, req, eff, wj, boom, sch)
@@ -125,13 +130,26 @@ def check_case(case, ctx=None, exhaustive=False):
 def _count(ctx, case, config, o):
     if ctx is None:
         return
-    nt = o.max_pending >= 2 and any(c != 0 for c in o.choices)
+    nt = o.max_pending >= 2 and (any(c != 0 for c in o.choices) or any(o.eager))
+    if any(o.eager):
+        ctx.event("runs-with-a-task-completed-before-its-submitter-continued")
     ctx.event("config:" + config)
     if o.max_pending >= 2:
         ctx.event("runs-with->=2-tasks-in-flight")
-    ctx.case(key=(case["request"]["text"], case["world"], config, o.choices, case.get("boom_idx")), nontrivial=nt,
+    ctx.case(key=(case["request"]["text"], case["world"], config, o.choices, o.eager, case.get("boom_idx")), nontrivial=nt,
              sample={"sdl": GS.to_sdl(GS.Spec(case["spec"]), False), "request": case["request"]["text"], "variables": case["request"]["variables"],
-                     "world": case["world"], "config": config, "choices": o.choices, "tasks": o.tasks, "boom": case.get("boom_idx")})
+                     "world": case["world"], "config": config, "choices": o.choices, "eager": o.eager, "tasks": o.tasks, "boom": case.get("boom_idx")})
+
+
+@st.composite
+def schedule_st(draw):
+    """completion order plus the eager stream (tasks that complete before their submitter goes on)"""
+    order = draw(st.lists(st.integers(0, 7), max_size=24))
+    eager = draw(st.one_of(st.just([]), st.just([1] * 40), st.lists(st.sampled_from([0, 0, 1, 1, 2, 3]), max_size=24)))
+    return {"order": order, "eager": eager}
+
+
+EAGER_VECTORS = [[], [1] * 40, [1, 0] * 20, [0, 1] * 20, [0, 2] * 20]
 
 
 @st.composite
@@ -144,7 +162,7 @@ def cases(draw, op_kind=None):
              "p_null": draw(st.sampled_from([0, 5, 9])), "p_null_item": draw(st.sampled_from([0, 4]))}
     nboom = draw(st.sampled_from([0, 0, 0, 1, 1, 2]))
     boom_idx = [draw(st.integers(0, 50)) for _ in range(nboom)]
-    schedules = [draw(st.lists(st.integers(0, 7), max_size=24)) for _ in range(draw(st.integers(1, 3)))]
+    schedules = [draw(schedule_st()) for _ in range(draw(st.integers(1, 3)))]
     return {"spec": spec, "mode": mode, "request": req, "world": world, "boom_idx": boom_idx, "schedules": schedules}
 
 
